@@ -449,6 +449,13 @@ func (g *GeneratorBase) Clean() error {
 		if isAIO {
 			continue
 		}
+		isGen, err := isGeneratedBy(file, g.subCmd)
+		if err != nil {
+			return err
+		}
+		if !isGen {
+			continue
+		}
 		if err := os.Remove(file); err != nil {
 			return err
 		}
@@ -462,6 +469,16 @@ func isAllInOneFile(file string) (bool, error) {
 		return false, err
 	}
 	pat := "^// Code generated by.*-type=\\*.*DO NOT EDIT."
+	reg := regexp.MustCompile(pat)
+	return reg.MatchString(line), nil
+}
+
+func isGeneratedBy(file string, subCmd string) (bool, error) {
+	line, err := firstLine(file)
+	if err != nil {
+		return false, err
+	}
+	pat := fmt.Sprintf("^// Code generated by \"%s %s .*DO NOT EDIT.", Shoot, regexp.QuoteMeta(subCmd))
 	reg := regexp.MustCompile(pat)
 	return reg.MatchString(line), nil
 }
